@@ -237,6 +237,19 @@ def native_storage():
                 sv[kind] = "%s: %s" % (type(e).__name__, e)
         if not (sv["csv"] == sv["ods"] == sv["xlsx"]) or sv["csv"][:3] != sparse[:3]:
             failures.append(dict(key="data-storage-trailing-empty-cells", what="a table whose rows end in empty cells is read as %r" % (sv,), args={}))
+        # the same paths rewritten with another table and validated again in the same process
+        n += 1
+        second = [["7", "g", "x"], ["x", "h", ""], ["9", "", "q"], ["10", "j", "y"]]
+        spp2 = store(second, "sparse", dict(column_runs=True))
+        sv2 = {}
+        for kind, fmt in (("csv", "delimited"), ("ods", "ods"), ("xlsx", "excel")):
+            cid = interface.create_cid_from_string("d,format,%s\nf,id,,,,Integer\nf,name,,X,...3\nf,mark,,X,,Choice,\"x,y\"\n" % fmt)
+            try:
+                sv2[kind] = ["error" if isinstance(r, errors.DataError) else r for r in validio.rows(cid, spp2[kind], on_error="yield")]
+            except Exception as e:  # noqa
+                sv2[kind] = "%s: %s" % (type(e).__name__, e)
+        if not (sv2["csv"] == sv2["ods"] == sv2["xlsx"] == [second[0], "error", "error", second[3]]):
+            failures.append(dict(key="data-storage-rewritten-file", what="files rewritten with a second table are read as %r" % (sv2,), args={}))
         # cells with carriage returns, consecutive blanks and tabs: the same values whatever the container
         special = [["k", "text"], ["1", "a\r\nb"], ["2", "Dr.   Who"], ["3", "tab\there"], ["4", "x\ry"]]
         spaths = store(special, "special", dict(ws_elements=True, span_at=2))
